@@ -5,7 +5,7 @@ from ._nodecommon import *
 
 ID = "C09"
 LEAN_MODULES = ["VpnCloud.Proofs.C09"]
-THEOREMS = []
+THEOREMS = ["VpnCloud.Proofs.C09." + n for n in ("dispatch_reaches_session", "dispatch_any_pending", "dispatch_original_false")]
 RULE = ("suite node: for every datagram seen on the wire during establishment and operation of a 2-3 node mesh: re-injection at later time offsets from {0,1,2,5,30,59,61,90,119,121,300,600} s "
         "(a subset in quick), with source in {original, another peer, unknown}, verbatim and with single-field edits; then a probe phase of one frame per second both ways; "
         "distinct non-trivial = distinct (op, #datagrams out, #interface writes, #peers, #pending, mutation kind)")
